@@ -217,11 +217,15 @@ fn composites() -> Vec<Composite> {
         Composite { label: "Debug of server_name extension: name type", reg: &iana::SNI_TYPE, via_display: true, text: |v| format!("{:?}", TlsExtension::SNI(vec![(SNIType(v as u8), &b"a.example"[..])])) },
         Composite { label: "Debug of server_name extension: name type (name not UTF-8)", reg: &iana::SNI_TYPE, via_display: true, text: |v| format!("{:?}", TlsExtension::SNI(vec![(SNIType(0x63), &b"ok.example"[..]), (SNIType(v as u8), &[0xff, 0xfe, 0x41, 0xc3][..])])) },
         Composite { label: "Debug of status_request extension: status type", reg: &iana::CERT_STATUS_TYPE, via_display: false, text: |v| format!("{:?}", TlsExtension::StatusRequest(Some((CertificateStatusType(v as u8), &[7u8, 7][..])))) },
+        Composite { label: "Debug of status_request extension: status type (request shaped like an OCSPStatusRequest)", reg: &iana::CERT_STATUS_TYPE, via_display: false, text: |v| format!("{:?}", TlsExtension::StatusRequest(Some((CertificateStatusType(v as u8), &[0u8, 2, 0xaa, 0xbb, 0, 0][..])))) },
+        Composite { label: "Debug of status_request extension: status type (empty responder list and extensions)", reg: &iana::CERT_STATUS_TYPE, via_display: false, text: |v| format!("{:?}", TlsExtension::StatusRequest(Some((CertificateStatusType(v as u8), &[0u8, 0, 0, 0][..])))) },
         Composite { label: "Debug of encrypted_server_name extension: group", reg: &iana::NAMED_GROUP, via_display: false, text: |v| format!("{:?}", TlsExtension::EncryptedServerName { ciphersuite: TlsCipherSuiteID(0x9999), group: NamedGroup(v as u16), key_share: &[], record_digest: &[], encrypted_sni: &[] }) },
         Composite { label: "Debug of TlsClientHelloContents: version", reg: &iana::VERSION, via_display: false, text: |v| format!("{:?}", TlsClientHelloContents { version: TlsVersion(v as u16), random: &RND, session_id: None, ciphers: vec![], comp: vec![], ext: None }) },
         Composite { label: "Debug of TlsClientHelloContents: compression", reg: &iana::COMPRESSION, via_display: false, text: |v| format!("{:?}", TlsClientHelloContents { version: TlsVersion(0x9999), random: &RND, session_id: None, ciphers: vec![], comp: vec![TlsCompressionID(0x99), TlsCompressionID(v as u8)], ext: None }) },
         Composite { label: "Debug of TlsServerHelloContents: version", reg: &iana::VERSION, via_display: false, text: |v| format!("{:?}", TlsServerHelloContents { version: TlsVersion(v as u16), random: &RND, session_id: None, cipher: TlsCipherSuiteID(0x9999), compression: TlsCompressionID(0x99), ext: None }) },
         Composite { label: "Debug of TlsServerHelloContents: compression", reg: &iana::COMPRESSION, via_display: false, text: |v| format!("{:?}", TlsServerHelloContents { version: TlsVersion(0x9999), random: &RND, session_id: None, cipher: TlsCipherSuiteID(0x9999), compression: TlsCompressionID(v as u8), ext: None }) },
+        Composite { label: "Debug of TlsServerHelloContents: compression (random = the HelloRetryRequest marker)", reg: &iana::COMPRESSION, via_display: false, text: |v| format!("{:?}", TlsServerHelloContents { version: TlsVersion(0x0303), random: &vmodel::model::HRR_RANDOM, session_id: None, cipher: TlsCipherSuiteID(0x9999), compression: TlsCompressionID(v as u8), ext: None }) },
+        Composite { label: "Debug of TlsServerHelloContents: version (random = the HelloRetryRequest marker)", reg: &iana::VERSION, via_display: false, text: |v| format!("{:?}", TlsServerHelloContents { version: TlsVersion(v as u16), random: &vmodel::model::HRR_RANDOM, session_id: None, cipher: TlsCipherSuiteID(0x9999), compression: TlsCompressionID(0x99), ext: Some(&[0, 0x2b, 0, 2, 3, 4]) }) },
         Composite { label: "Debug of TlsServerHelloV13Draft18Contents: version", reg: &iana::VERSION, via_display: false, text: |v| format!("{:?}", TlsServerHelloV13Draft18Contents { version: TlsVersion(v as u16), random: &RND, cipher: TlsCipherSuiteID(0x9999), ext: None }) },
         Composite { label: "Debug of TlsHelloRetryRequestContents: version", reg: &iana::VERSION, via_display: false, text: |v| format!("{:?}", TlsHelloRetryRequestContents { version: TlsVersion(v as u16), cipher: TlsCipherSuiteID(0x9999), ext: None }) },
         Composite { label: "Debug of TlsMessageHeartbeat: type", reg: &iana::HEARTBEAT_TYPE, via_display: false, text: |v| format!("{:?}", TlsMessageHeartbeat { heartbeat_type: TlsHeartbeatMessageType(v as u8), payload_len: 0, payload: &[] }) },
